@@ -303,7 +303,11 @@ func (st *c05RRState) balanceOnce(algor int, key []byte, sequential bool) *c05Fa
 	var b *backend.BfeBackend
 	var err error
 	if p := ev.Try(func() { b, err = st.brr.Balance(algor, key) }); p != nil {
-		return &c05Failure{Key: "panic-rr-balance-" + c05AlgorName(algor), Msg: fmt.Sprintf("BalanceRR.Balance(%s) panicked: %v", c05AlgorName(algor), p)}
+		key := "panic-rr-balance-" + c05AlgorName(algor)
+		if strings.Contains(fmt.Sprint(p), "divide by zero") {
+			key += "-divide-by-zero"
+		}
+		return &c05Failure{Key: key, Msg: fmt.Sprintf("BalanceRR.Balance(%s) panicked: %v", c05AlgorName(algor), p)}
 	}
 	if err == nil && b == nil {
 		return &c05Failure{Key: "nil-backend-nil-error-" + c05AlgorName(algor), Msg: "Balance returned neither a backend nor an error"}
